@@ -149,6 +149,8 @@ fn cmd_gen(args: &[String]) {
     let corpus = arg(args, "--corpus", "");
     std::fs::create_dir_all(&outdir).unwrap();
     let mut rng = Rng::new(seed);
+    // panics of the implementation are outcomes here (caught); keep stderr quiet
+    std::panic::set_hook(Box::new(|_| {}));
 
     // ---------------------------------------------------------------- model sets (K-exp, O-C17, O-C18)
     let mut sets: Vec<(String, Vec<TableDef>)> = vec![];
